@@ -108,6 +108,7 @@ type RevScenario struct {
 	CacheLatency     time.Duration   // fake duration of every cache operation
 	WrapMiss         bool            // the cache reports misses as a wrapped ErrCacheMiss
 	PanicInSet       bool            // PanicAt == "cache": Set panics instead of Get
+	CancelOnly       int             // 1 + position (order of the full scenario) of the only caller the cancellation applies to; 0 = all callers
 	StaggerMs        []int           // start offset of every concurrent caller, in the order of the full scenario (nil = together)
 	Sequential       bool            // soak: the worlds are successive validations of the same chain
 	Gaps             []time.Duration // soak: fake time that passes before each validation
@@ -426,6 +427,11 @@ func GenRevScenario(t *Tape, p *RevProfile) *RevScenario {
 		sc.CancelAfter = time.Duration(t.Choose(6000)) * time.Millisecond
 		sc.CancelXSel = t.Choose(1000)
 		sc.CancelXPreferCRL = t.Bool(50)
+	}
+	if p.StaggerPct > 0 && total > 1 && (sc.Cancel == CancelBefore || sc.Cancel == CancelAt || sc.Cancel == CancelDeadline) && t.Bool(50) {
+		// only ONE of the concurrent callers is cancelled / has the deadline:
+		// the others must not feel it
+		sc.CancelOnly = 1 + t.Choose(total)
 	}
 	if n := len(sc.Worlds[0].Certs); n > 1 {
 		sc.HealCert = t.Choose(n - 1)
